@@ -5,6 +5,7 @@ transition is one call of the real Heap method on a Heap rebuilt from the
 state tuple.
 """
 import collections
+import itertools
 
 from mc.runner import Result, horizon, Horizon
 
@@ -118,6 +119,11 @@ def plan(tier, seed):
         for policy in ("min", "max"):
             shards.append((policy, cap, m, "setter"))
             shards.append((policy, cap, m, "built"))
+    # fill-and-drain: every sequence of 6 / 7 inserts over three / four key values (all tie patterns
+    # in a heap of three levels), each followed by a complete drain
+    for policy in ("min", "max"):
+        shards.append(("fill", policy, 6, 4))
+        shards.append(("fill", policy, 7, 3))
     # one long deterministic history on a heap of 300 elements (identifiers beyond 256)
     for policy in ("min", "max"):
         shards.append(("bigheap", policy, 300))
@@ -460,6 +466,40 @@ def big_ops(policy, size, seed):
     return ops
 
 
+def run_fill(shard, seed):
+    from opfython.core.heap import Heap
+    _, policy, size, m = shard
+    keys = key_table(seed, m)
+    res = Result()
+    for seq in itertools.product(range(m), repeat=size):
+        ops = [("insert", e, keys[seq[e]]) for e in range(size)]
+        h = Heap(size, policy)
+        ref = ((WHITE,) * size, (None,) * size)
+        prob = None
+        for op in ops:
+            ref, prob = step(h, policy, size, ref, op)
+            res.transitions += 1
+            if prob:
+                break
+        if not prob:
+            prob = drain_problem(Heap, size, policy, snap(h), ref)
+            res.transitions += size
+        res.states += 1
+        res.evaluations += 1
+        res.traces += 1
+        if len(set(seq)) < size:
+            res.nontrivial += 1
+        if prob:
+            res.violation("drain", {"policy": policy, "size": size, "ops": [list(o) for o in ops], "then": "drain"},
+                          prob, "each queued element once, in key order", prob, fingerprint(prob))
+            if res.full:
+                break
+    res.outcome(shard)
+    res.sample({"policy": policy, "size": size, "ops": "every sequence of %d inserts over %d key values" % (size, m),
+                "then": "drain"}, 1)
+    return res
+
+
 def run_big(shard, seed):
     from opfython.core.heap import Heap
     _, policy, size = shard
@@ -504,6 +544,8 @@ def run(shard, seed):
         return run_deep(shard, seed)
     if shard[0] == "bigheap":
         return run_big(shard, seed)
+    if shard[0] == "fill":
+        return run_fill(shard, seed)
     if len(shard) == 4:
         return _run_bfs(heap_class(shard[3]), c, shard[:3], seed, shard[3])
     return _run_bfs(Heap, c, shard, seed)
